@@ -26,8 +26,10 @@ fn dispatch(prop: &str, rec: &mut Rec) {
         "C01" => checks::c01::run(rec),
         "C02" => checks::c02::run(rec),
         "C03" => checks::c03::run(rec),
+        "C04" => checks::c04::run(rec),
         "C05" => checks::c05::run(rec),
         "C10" => checks::c10::run(rec),
+        "C11" => checks::c11::run(rec),
         _ => {
             eprintln!("unknown property {}", prop);
             std::process::exit(2)
